@@ -204,20 +204,19 @@ Theorem C19_return_kind_truthiness_test (outer : rdarg -> bool) (rd : rdarg) (k 
 Proof. exact (rk_table_truthy outer rd k). Qed.
 Print Assumptions C19_return_kind_truthiness_test.
 
-(* output_sxr as it is (outer test `return_dict is True`): booleans are handled as documented ... *)
-Theorem C19_return_kind_output_bool (b : bool) (k : rkind) :
-  documented_kind (RdBool b) = Some k -> output_return_kind (RdBool b) = k.
-Proof. exact (rk_table_is_true_bool b k). Qed.
-Print Assumptions C19_return_kind_output_bool.
+(* output_sxr (outer test `if return_dict:` since the fix of sxr_module.py:263) follows the same table *)
+Theorem C19_return_kind_output (rd : rdarg) (k : rkind) :
+  documented_kind rd = Some k -> output_return_kind rd = k.
+Proof. exact (rk_table_truthy output_outer_test rd k (fun r => eq_refl)). Qed.
+Print Assumptions C19_return_kind_output.
 
-(* ... but a prefix string gets the tuple: the clause "a prefix string yields a dict with prefixed
-   keys for both functions" is false of the faithful model of output_sxr (sxr_module.py:263) *)
-Theorem C19_return_kind_output_prefix_refuted :
-  exists (p : string) (k : rkind), documented_kind (RdStr p) = Some k /\ ~ output_return_kind (RdStr p) = k.
+(* the former test `return_dict is True` returned the tuple for every prefix string *)
+Theorem C19_return_kind_is_true_test_refuted :
+  exists (p : string) (k : rkind), documented_kind (RdStr p) = Some k /\ ~ rk_table rd_is_true (RdStr p) = k.
 Proof. exact (ex_intro _ "output_"%string (ex_intro _ _ (conj eq_refl
-         (fun H : output_return_kind (RdStr "output_") = KDict "output_sdr" "output_sir" "output_snr" =>
+         (fun H : rk_table rd_is_true (RdStr "output_") = KDict "output_sdr" "output_sir" "output_snr" =>
             match H in (_ = y) return (match y with KTuple => True | _ => False end) with eq_refl => I end)))). Qed.
-Print Assumptions C19_return_kind_output_prefix_refuted.
+Print Assumptions C19_return_kind_is_true_test_refuted.
 
 (* non-vacuity: concrete signals meet the hypotheses of the input_sxr theorems *)
 Example C19_hypotheses_satisfiable :
